@@ -125,6 +125,18 @@ FRESH = [
     ("def p = <*n = 1*>; def i1 = <*_proto_ = p, n = 2*>; i1->n = 4; [i1->n, p->n]", "[4, 1]"),
     ("def o = <*v = [1]*>; def o2 = o; o2->v = [2]; o->v", "[2]"),
     ("def l = [3, 1, 2]; def r = permutations(l); l", "[3, 1, 2]"),
+    # literals are fresh values every time they are evaluated: defaults, loop bodies, function bodies
+    ("def collect(x, acc = []) do append(acc, x); acc end; def p = collect(1); def q = collect(2); [p, q]", "[[1], [2]]"),
+    ("def mk(m = <<<>>>) m; def p = mk(); def q = mk(); put(p, 1, 2); [p, q]", "[<<<1 => 2>>>, <<<>>>]"),
+    ("def mk(s = <<>>) s; def p = mk(); def q = mk(); append(p, 1); [p, q]", "[<<1>>, <<>>]"),
+    ("def mk(o = <*n = 0*>) o; def p = mk(); def q = mk(); p->n = 5; [p->n, q->n]", "[5, 0]"),
+    ("def mk(l = [1, [2]]) l; def p = mk(); def q = mk(); append(p[1], 3); [p, q]", "[[1, [2, 3]], [1, [2]]]"),
+    ("def f = fn(acc = [0]) do acc[0] += 1; acc end; [f(), f(), f()]", "[[1], [1], [1]]"),
+    ("def mk() [1, 2]; def p = mk(); def q = mk(); append(p, 3); [p, q]", "[[1, 2, 3], [1, 2]]"),
+    ("def r = []; for i in [1, 2] do def l = []; append(l, i); append(r, l) end; r", "[[1], [2]]"),
+    ("def mk() <*items = []*>; def p = mk(); def q = mk(); append(p->items, 1); [p->items, q->items]", "[[1], []]"),
+    ("def r = [[] for i in [1, 2]]; append(r[0], 1); r", "[[1], []]"),
+    ("def mk(x, l = [x]) l; def p = mk(1); def q = mk(1); append(p, 2); [p, q]", "[[1, 2], [1]]"),
 ]
 
 
